@@ -1,16 +1,50 @@
 """engine preempt: queue preemption, required node preemption, quota change preemption (C07, C08)"""
+
+
+def _info():
+    """coverage counters computed with the model on the generated cases (class info: the first component is a count)"""
+    both = ["C07", "C08"]
+    out = {}
+    add = ["cases", "additional-victims pass entered (a node was chosen)", "additional-victims pass added a victim",
+           "a victim added by the additional-victims pass was preempted", "second pass of calculateVictimsByNode rejected a candidate the first pass kept",
+           "additional-victims pass rejected a candidate by the queue test (not over guarantee for an ask type)",
+           "additional-victims pass stopped: the ask queue cannot absorb the victim", "additional-victims pass put a victim back (no effect on the ask queue)",
+           "additional-victims pass found victims but the ask queue is still over its guarantee afterwards (attempt abandoned)"]
+    for base, name in ((900, "general queue streams"), (910, "stream extra")):
+        for i, t in enumerate(add):
+            out[base + i] = dict(cls="info", props=both, what="%s: %s" % (name, t))
+    out[919] = dict(cls="info", props=both, what="stream qtime: histories")
+    spt = ["preemption running", "delay 0", "no max", "usage within the max", "max unchanged, not armed, delay newly set: armed", "max unchanged, not armed: nothing",
+           "max unchanged, armed, delay longer", "max unchanged, armed, delay shorter", "max unchanged, armed, same delay",
+           "lowered, not armed: armed (first lowering)", "lowered again, delay longer", "lowered again, delay shorter", "lowered again, same delay",
+           "raised, not armed", "raised, armed, delay longer", "raised, armed, delay shorter", "raised, armed, same delay",
+           "changed in different directions, not armed", "changed in different directions, armed, delay longer", "changed in different directions, armed, delay shorter",
+           "changed in different directions, armed, same delay"]
+    for i, t in enumerate(spt):
+        out[920 + i] = dict(cls="info", props=both, what="stream qtime: setPreemptionTime: " + t)
+    acq = ["queue not managed", "already running", "usage within the max (start time cleared)", "not armed", "start time not reached", "acquired",
+           "probe exactly one second before the start time", "probe exactly at the start time"]
+    for i, t in enumerate(acq):
+        out[945 + i] = dict(cls="info", props=both, what="stream qtime: tryAcquirePreemption: " + t)
+    inc = ["re-armed", "feature off", "already armed", "queue not managed", "delay 0", "no max", "usage within the max"]
+    for i, t in enumerate(inc):
+        out[955 + i] = dict(cls="info", props=both, what="stream qtime: IncAllocatedResource: " + t)
+    return out
+
+
 ENGINES = {
     "preempt": dict(
-        path="harness/preempt.go harness/preempt_gen.go harness/preempt_more.go coq/Preempt coq/Oracles/PreemptCheck.v coq/Props/C07.v coq/Props/C08.v",
+        path="harness/preempt.go harness/preempt_gen.go harness/preempt_more.go harness/preempt_extra.go coq/Preempt coq/Oracles/PreemptCheck.v coq/Props/C07.v coq/Props/C08.v",
         about="Gallina model of Queue.FindEligiblePreemptionVictims / Preemptor / PreemptionContext / QuotaPreemptionContext on generated worlds; potential victim sets, precondition and guarantee checks compared exactly, the committed victim list validated (decision validation) and predicted exactly when creation times are distinct",
         n=dict(quick=600, thorough=1000), shards=dict(quick=1, thorough=20),
         kinds={
             1: dict(cls="corr", props=["C07"], what="model and implementation disagree on who may ask / who may be a victim (preconditions, potential victim sets, required node and quota candidate filters)"),
             4: dict(cls="corr", props=["C08"], what="model and implementation disagree on what is done with the candidates (guarantee check, chosen victims, preempting ledger, quota shares and timing)"),
             2: dict(cls="oracle", props=["C07"], what="an allocation that is not eligible was preempted, the asker was not allowed to preempt, or a victim was not announced exactly once"),
-            3: dict(cls="oracle", props=["C08"], what="preemption without guarantee / victim queue not above its guarantee / victims and free space do not cover the ask / something marked although not committed / quota bound exceeded"),
+            3: dict(cls="oracle", props=["C08"], what="preemption without guarantee / victim queue not above its guarantee / victims and free space do not cover the ask / something marked although not committed / quota bound exceeded / quota preemption acted before the delay in force had elapsed since the change that armed it"),
             5: dict(cls="oracle", props=["C07", "C08"], what="the implementation panicked while preempting"),
             6: dict(cls="corr", props=["C07", "C08"], what="generated world is not well formed (harness problem)"),
+            **_info(),
         },
         sections=[("queue", 0), ("reqnode", 100000), ("quota", 200000)],
     ),
@@ -25,7 +59,7 @@ PROPS = {
                               technique="Coq proof + model/implementation correspondence with decision validation"),
                 assumptions=["worlds are well formed (unique queue ids/paths, allocation keys, node ids; every queue reaches the root; allocations and the ask live in leaf queues)", "priority arithmetic does not overflow int64 (priorities and offsets are int32)", "nodes carry no reservations of other asks", "at most 10 candidate nodes (one predicate batch)"]),
     "C08": dict(_COMMON, props_file="Props/C08.v", coq_scan=["Preempt", "Oracles/PreemptCheck.v", "Props/C08.v"], level="proof",
-                manifest=dict(category="proof", text="Coq theorems over the Gallina transcription of checkPreemptionQueueGuarantees / calculateVictimsByNode / calculateAdditionalVictims / the final victim filter of TryPreemption and of the quota preemptor: an attempt commits only under the guarantee check, every victim passed the over-guarantee test on the running snapshot, a committed outcome covers the ask on the chosen node (refuted for the pinned code, proved after the fix), a failed attempt changes nothing; quota preemption claims at most the preemptable amount per type, runs only for managed queues whose armed start time has passed, and never dereferences a nil share (refuted for the pinned code); parts that need float or monotonicity reasoning are named _partial; the same predicates run as oracles on implementation observations",
+                manifest=dict(category="proof", text="Coq theorems over the Gallina transcription of checkPreemptionQueueGuarantees / calculateVictimsByNode / calculateAdditionalVictims / the final victim filter of TryPreemption and of the quota preemptor: an attempt commits only under the guarantee check, every victim passed the over-guarantee test on the running snapshot, a committed outcome covers the ask on the chosen node (refuted for the pinned code, proved after the fix), a failed attempt changes nothing; quota preemption claims at most the preemptable amount per type, runs only for managed queues whose armed start time has passed, over all histories of reloads / usage changes / acquisitions only after the delay in force has elapsed since the change that armed the start time (ghost arming time; refuted for the code before 1aadae4), and never dereferences a nil share (refuted for the pinned code); parts that need float or monotonicity reasoning are named _partial; the same predicates run as oracles on implementation observations",
                               note="preempting_returns_to_zero is left to the core engine (release path); float share distribution is checked by correspondence, its bound is an oracle only",
                               technique="Coq proof (partial) + model/implementation correspondence with decision validation"),
                 assumptions=["worlds are well formed", "victim resources are non-negative and sums stay within int64 for the coverage theorem", "quota: guaranteed <= max on the types of max (configuration validation) for never_below_guarantee", "the partition level switch IsQuotaPreemptionEnabled is checked by scheduler.go (core engine)"]),
